@@ -40,7 +40,7 @@ def make_trait_def(name):
 def new_model(uid):
     return {"uid": uid, "value": 0, "ro": UNSET, "scratch": 7, "tags": [], "stags": [],
             "grid": [], "table": {}, "group": set(), "child": None, "friend": None,
-            "children": [], "members": set(), "sp": 0, "blob": None, "pv": UNSET}
+            "children": [], "members": set(), "sp": 0, "blob": None, "keep": 0, "pv": UNSET}
 
 
 class Prop:
@@ -155,7 +155,8 @@ class Prop:
             return {"k": r.choice(["members_add", "members_add", "members_discard"]), "o": o,
                     "v": r.randrange(npool)}
         if x < 0.98:
-            return {"k": r.choice(["sp", "pv", "pv", "blob", "blob"]), "o": o, "v": fresh()}
+            return {"k": r.choice(["sp", "pv", "pv", "blob", "blob", "keep"]), "o": o,
+                    "v": fresh()}
         return {"k": "bump", "o": o}
 
     # ------------------------------------------------------------------ execution
@@ -247,6 +248,7 @@ class Prop:
                 sorted(c.uid for c in d.get("members", ())),
                 d.get("_spv", 0),
                 (list(d["blob"]) if isinstance(d.get("blob"), list) else None),
+                d.get("keep", 0),
                 # the prototyped attribute by what it READS as (a copy may or may not turn
                 # the prototype's value into a local one): local value, else prototype's
                 (d["pv"] if "pv" in d else getattr(d.get("child"), "value", "<unreadable>")))
@@ -262,7 +264,7 @@ class Prop:
                 list(m["tags"]), list(m["stags"]), [list(r) for r in m["grid"]],
                 {a: list(b) for a, b in m["table"].items()}, set(m["group"]),
                 u(m["child"]), u(m["friend"]), list(m["children"]), sorted(m["members"]),
-                m["sp"], m["blob"], self.pv_reads(m))
+                m["sp"], m["blob"], m["keep"], self.pv_reads(m))
 
     def pv_reads(self, m):
         if isinstance(m["pv"], tuple) and m["pv"][0] == "either":
@@ -294,7 +296,7 @@ class Prop:
         self.env.oracle_evals += 1
         if got != want:
             names = ["value", "ro", "tags", "stags", "grid", "table", "group", "child", "friend",
-                     "children", "members", "sp", "blob", "pv"]
+                     "children", "members", "sp", "blob", "keep", "pv"]
             diff = [(n, a, b) for n, a, b in zip(names, got, want) if a != b]
             raise Violation("C14.state", "%s: R%d holds %s" % (
                 what, m["uid"], "; ".join("%s=%r (model %r)" % d for d in diff[:3])), step)
@@ -423,7 +425,7 @@ class Prop:
         self.env.oracle_evals += 1
         if got != want:
             names = ["value", "ro", "tags", "stags", "grid", "table", "group", "child", "friend",
-                     "children", "members", "sp", "blob", "pv"]
+                     "children", "members", "sp", "blob", "keep", "pv"]
             diff = [(n, a, b) for n, a, b in zip(names, got, want) if a != b]
             raise Violation("C14.state", "%s: copy of R%d holds %s" % (
                 mode, m["uid"], "; ".join("%s=%r (model %r)" % d for d in diff[:3])), step)
@@ -498,6 +500,7 @@ class Prop:
                 "group": set(m["group"]), "child": m["child"], "friend": m["friend"],
                 "children": list(m["children"]), "members": set(m["members"]),
                 "sp": m["sp"], "blob": (None if m["blob"] is None else list(m["blob"])),
+                "keep": m["keep"],
                 "pv": m["pv"]}
 
     # the liveness battery -------------------------------------------------------------
@@ -663,6 +666,9 @@ class Prop:
         elif k == "sp":
             _, e = sut(setattr, x, "sp", op["v"])
             m["sp"] = op["v"]
+        elif k == "keep":
+            _, e = sut(setattr, x, "keep", op["v"])
+            m["keep"] = op["v"]
         elif k == "blob":
             _, e = sut(setattr, x, "blob", [op["v"], op["v"] + 1])
             m["blob"] = [op["v"], op["v"] + 1]
